@@ -371,18 +371,36 @@ def kernel_contracts(run):
                 for k_, o in enumerate(list(c1.oblig) + list(c2.oblig)):
                     run.prove(f"{tag}/safety.{o.name}#{k_}", fn, list(c1.hyps) + list(o.pc), o.goal, structural=True, kind="safety")
     # the scale over the whole range of data counts, on the real helpers (concrete arithmetic): positive and finite
-    bad = {}
+    bad, badc = {}, {}
     for name in kernels:
         for axial in (True, False):
             for n in list(range(1, 301)) + [1000, 10 ** 5]:
                 try:
                     with np.errstate(all="ignore"):
-                        _, sc = ST.SPHERICAL_COUNTING_KERNELS[name](np.full(n, 0.5), axial=axial)
+                        cnt_, sc = ST.SPHERICAL_COUNTING_KERNELS[name](np.linspace(0.0, 1.0, n) if n > 1 else np.array([0.5]), axial=axial)
                     ok = bool(np.isfinite(sc) and sc > 0)
+                    okc = bool(np.all(np.isfinite(cnt_)) and np.all(np.asarray(cnt_) >= 0))
                 except Exception:
-                    ok = False
+                    ok = okc = False
                 if not ok:
                     bad.setdefault((name, axial), []).append(n)
+                if not okc:
+                    badc.setdefault((name, axial), []).append(n)
+    # the counts themselves over the range of data counts and smoothing parameters (floating-point range: no overflow)
+    for name in kernels:
+        msgs = list(f"axial={ax}: n in {v[0]}..{v[-1]}" for (nm, ax), v in badc.items() if nm == name)
+        if name != "schmidt_count":
+            for sg in (1, 2, 3, 20, 50):
+                for n in (150, 3000, 40000, 10 ** 6):
+                    try:
+                        with np.errstate(all="ignore"):
+                            cnt_, sc = ST.SPHERICAL_COUNTING_KERNELS[name](np.linspace(0.0, 1.0, n), σ=sg, axial=True)
+                        if not (np.all(np.isfinite(cnt_)) and np.all(np.asarray(cnt_) >= 0) and np.isfinite(sc) and sc > 0):
+                            msgs.append(f"sigma={sg}, n={n}")
+                    except Exception as e:
+                        msgs.append(f"sigma={sg}, n={n}: {type(e).__name__}")
+        run.exact(f"{name}: counts are finite and non-negative for 1..300, 1000, 100000 data (default smoothing) and for sigma in 1..50 with up to 10^6 axial data (no overflow)", f"pydrex.stats.{name}", not msgs, "; ".join(msgs[:4]),
+                  info=None if not msgs else dict(checker="contracts.C20:nat_kernel_range", inputs=dict(kernel=name)))
     for name in kernels:
         for axial in (True, False):
             b = bad.get((name, axial), [])
@@ -395,6 +413,19 @@ def kernel_contracts(run):
                           f"not positive/finite for n in {bb[0]}..{bb[-1]} ({len(bb)} values)" if bb else "",
                           info=None if not bb else dict(checker="contracts.C20:nat_density_nonaxial", inputs=dict(kernel=name, n=int(bb[len(bb) // 2]), axial=axial)))
     E.Ctx.cur = None
+
+
+def nat_kernel_range(kernel):
+    from pydrex import stats as st
+
+    msgs = []
+    for sg in (1, 2, 3, 10, 20, 50):
+        for n in (150, 3000, 40000, 10 ** 6):
+            with np.errstate(all="ignore"):
+                cnt_, sc = st.SPHERICAL_COUNTING_KERNELS[kernel](np.linspace(0.0, 1.0, n), axial=True, **({} if kernel == "schmidt_count" else {"σ": sg}))
+            if not (np.all(np.isfinite(cnt_)) and np.isfinite(sc) and sc > 0):
+                msgs.append(f"sigma={sg}, n={n}: counts or scale not finite")
+    return dict(ok=not msgs, what="; ".join(msgs[:4]))
 
 
 def nat_density_nonaxial(kernel, n, axial):
@@ -478,9 +509,6 @@ def poles_facets(run, which):
     hkl = symarr("h", (3,))
     axes_map = {"x": 0, "y": 1, "z": 2}
     for ra in which:
-        c = E.Ctx([])
-        E.Ctx.cur = c
-        c.reset_path([])
         g = dict(GM.__dict__)
 
         class Shim(S.NPShim):
@@ -491,45 +519,73 @@ def poles_facets(run, which):
 
         g.update(np=Shim(), la=LAStub)
         f = E.rebind_function(GM.poles, g)
-        xs, ys, zs = f(O.copy(), ra, hkl)
-        H = list(c.hyps) + list(c.pc)
         # contract: directions d_g = A_g^T hkl, non-zero
-        nz = []
-        d = []
+        nz, d = [], []
         for k in range(N):
             dk = S._matmul(O[k].T, hkl)
             d.append(dk)
             nz.append(S.zz(S._sum(S.ew(lambda t: t * t, dk))) > 0)
-        for k, o in enumerate(c.oblig):
-            run.prove(f"poles[{ra}]/safety.{o.name}#{k}", fn, H[: len(c.hyps)] + list(o.pc) + nz, o.goal, structural=True, kind="safety")
+        ex = E.explore(lambda: f(O.copy(), ra, hkl), hyps=nz, max_paths=64)
+        run.paths += len(ex.paths)
+        if not ex.complete or not ex.paths or ex.unsupported:
+            run.undecided(f"poles[{ra}]", fn, "exploration incomplete: " + "; ".join(ex.unsupported[:2]))
+            continue
+        rp = _rp_poles(ra, O, hkl)
         low = ra.lower()
         up = (set("xyz") - set(low)).pop()
-        goals = []
-        for k in range(N):
-            out = {low[0]: xs[k], low[1]: ys[k], up: zs[k]}
-            nrm2 = S._sum(S.ew(lambda t: t * t, S.SymArray(np.array([xs[k], ys[k], zs[k]], dtype=object))))
-            goals.append(E.clear_formula(S.zz(nrm2) == 1))
-            # parallel to d with a positive factor: out_axis * |d| == d_axis
-            for ax_ in "xyz":
-                comp = out[ax_]
-                others = [a for a in "xyz" if a != ax_]
-                for ob in others:
-                    goals.append(E.clear_formula(S.zz(comp) * S.zz(d[k][axes_map[ob]]) == S.zz(out[ob]) * S.zz(d[k][axes_map[ax_]])))
-            dot = out["x"] * d[k][0] + out["y"] * d[k][1] + out["z"] * d[k][2]
-            goals.append(E.clear_formula(S.zz(dot) > 0))
-        run.prove(f"poles[{ra}]/unit vectors A^T hkl/|.| returned as (component {low[0]}, component {low[1]}, component {up})", fn, H + nz, z3.And(*goals), replay=_rp_poles(ra), timeout=max(run.per_obl_timeout, 30))
+        for pi, p in enumerate(ex.paths):
+            tag = f"poles[{ra}]" if len(ex.paths) == 1 else f"poles[{ra}]/path{pi}"
+            H = list(ex.ctx.hyps) + list(p.pc)
+            if p.exc is not None:
+                run.prove(f"{tag}/no exception for a non-zero direction", fn, H, z3.BoolVal(False), replay=rp, detail=f"{type(p.exc).__name__}: {p.exc}")
+                continue
+            xs, ys, zs = p.value
+            for k, o in enumerate(p.oblig):
+                run.prove(f"{tag}/safety.{o.name}#{k}", fn, list(ex.ctx.hyps) + list(o.pc), o.goal, structural=True, kind="safety")
+            goals = []
+            for k in range(N):
+                out = {low[0]: xs[k], low[1]: ys[k], up: zs[k]}
+                nrm2 = S._sum(S.ew(lambda t: t * t, S.SymArray(np.array([xs[k], ys[k], zs[k]], dtype=object))))
+                goals.append(E.clear_formula(S.zz(nrm2) == 1))
+                # parallel to d with a positive factor: out_axis * |d| == d_axis
+                for ax_ in "xyz":
+                    comp = out[ax_]
+                    others = [a for a in "xyz" if a != ax_]
+                    for ob in others:
+                        goals.append(E.clear_formula(S.zz(comp) * S.zz(d[k][axes_map[ob]]) == S.zz(out[ob]) * S.zz(d[k][axes_map[ax_]])))
+                dot = out["x"] * d[k][0] + out["y"] * d[k][1] + out["z"] * d[k][2]
+                goals.append(E.clear_formula(S.zz(dot) > 0))
+            run.prove(f"{tag}/unit vectors A^T hkl/|.| returned as (component {low[0]}, component {low[1]}, component {up})", fn, H, z3.And(*goals), replay=rp, timeout=max(run.per_obl_timeout, 30))
         E.Ctx.cur = None
 
 
-def _rp_poles(ra):
+def _rp_poles(ra, O, hkl):
     def replay(model):
-        res = native.call("contracts.C20", "nat_sweep", dict(seed=3, count=20))
-        hit = [f for f in res["failures"] if "poles" in f["what"]]
-        if hit:
-            return True, dict(checker=hit[0]["checker"], inputs=hit[0]["inputs"], what=hit[0]["what"])
-        return False, dict(note="native sweep found no failing pole extraction")
+        kw = dict(O=E.model_array(model, O).tolist(), hkl=E.model_array(model, hkl).tolist(), ra=ra)
+        res = native.call("contracts.C20", "nat_poles", kw)
+        return (not res["ok"]), dict(checker="contracts.C20:nat_poles", inputs=kw, observed=res, what=res.get("what", ""))
 
     return replay
+
+
+def nat_poles(O, hkl, ra):
+    import pydrex.geometry as g
+
+    O, hkl = np.array(O, float), np.array(hkl, float)
+    d = np.einsum("gji,j->gi", O, hkl)
+    nrm = np.linalg.norm(d, axis=1)
+    if np.any(nrm == 0):
+        return dict(ok=True, what="degenerate direction (outside the contract)")
+    d = d / nrm[:, None]
+    amap = {"x": 0, "y": 1, "z": 2}
+    low = ra.lower()
+    up = (set("xyz") - set(low)).pop()
+    try:
+        xs, ys, zs = g.poles(O.copy(), ra, hkl)
+    except Exception as e:
+        return dict(ok=False, what=f"raised {type(e).__name__}: {e}")
+    ok = bool(np.allclose(xs, d[:, amap[low[0]]], atol=1e-9) and np.allclose(ys, d[:, amap[low[1]]], atol=1e-9) and np.allclose(zs, d[:, amap[up]], atol=1e-9))
+    return dict(ok=ok, what="" if ok else f"poles(hkl={hkl.tolist()}, ref_axes={ra!r}) is not A^T hkl / |A^T hkl| with the requested component order")
 
 
 def bounded(run):
@@ -572,7 +628,7 @@ def nat_sweep(seed, count):
             # poles
             n = int(rng.choice([1, 3, 20]))
             O = R.random(n, random_state=int(rng.integers(1 << 30))).as_matrix().reshape(n, 3, 3)
-            hkl = [[1, 0, 0], [0, 1, 0], [0, 0, 1], [1, 1, 0], [1, 2, 3]][it % 5]
+            hkl = [[1, 0, 0], [0, 1, 0], [0, 0, 1], [1, 1, 0], [1, 2, 3], [-1, 0, 0], [0, 0, -2], [0, -1, 0], [1, -1, 0], [0, 0.5, 0]][it % 10]
             d = np.einsum("gji,j->gi", O, np.array(hkl, float))
             d /= np.linalg.norm(d, axis=1)[:, None]
             amap = {"x": 0, "y": 1, "z": 2}
